@@ -20,6 +20,9 @@ fn subset(rng: &mut Rng, xs: &[u32], style: u64) -> Vec<u32> {
 }
 
 pub fn generate(rng: &mut Rng, kind: Kind) -> Generated {
+    // the soft family alternates between general and tight (conflict-heavy) universes
+    let soft = kind == Kind::Soft;
+    let kind = if soft && rng.chance(1, 2) { Kind::Tight } else { kind };
     let n_names = match kind { Kind::Tight => rng.range(3, 6), _ => rng.range(1, 8) } as u32;
     let sparse = rng.chance(1, 6);
     // --- solvable ids
@@ -114,9 +117,28 @@ pub fn generate(rng: &mut Rng, kind: Kind) -> Generated {
         else { let n = rng.below((n_names as u64).min(3)) as usize; p.reqs.push(Req::Single(*rng.pick(&vs_of_name[n]))); }
     }
     if rng.chance(1, 5) { p.cons.push(*rng.pick(&all_vs)); }
-    if kind == Kind::Soft {
+    if soft && rng.chance(1, 2) {
+        // an extra package with the highest name id that nothing refers to: its solvables can only enter
+        // the problem as directly named soft requirements (their package's candidates are never fetched)
+        let extra_name = n_names;
+        let base = u.solvs.keys().max().copied().unwrap_or(0) + 1;
+        let k = rng.range(1, 3) as u32;
+        let mut cands = Vec::new();
+        for j in 0..k {
+            let n_reqs = rng.range(1, 3);
+            let reqs: Vec<Req> = (0..n_reqs).map(|_| Req::Single(*rng.pick(&all_vs))).collect();
+            let cons: Vec<u32> = if rng.chance(1, 3) { vec![*rng.pick(&all_vs)] } else { vec![] };
+            u.solvs.insert(base + j, Solv { name: extra_name, rank: j, deps: Deps::Known { reqs, cons } });
+            cands.push(base + j);
+        }
+        u.pkgs.insert(extra_name, Pkg { cands: cands.clone(), ..Default::default() });
+        for _ in 0..rng.range(1, 2) { p.soft.push(*rng.pick(&cands)); }
+    }
+    if soft {
         let all_s: Vec<u32> = u.solvs.keys().copied().collect();
-        for _ in 0..rng.range(1, 4) { p.soft.push(*rng.pick(&all_s)); }
+        // bias towards solvables of the highest-numbered packages (often never requested by anyone)
+        let high: Vec<u32> = u.solvs.iter().filter(|(_, s)| s.name + 2 >= n_names).map(|(k, _)| *k).collect();
+        for _ in 0..rng.range(1, 4) { p.soft.push(if !high.is_empty() && rng.chance(1, 2) { *rng.pick(&high) } else { *rng.pick(&all_s) }); }
     }
     Generated { u, p }
 }
